@@ -142,7 +142,7 @@ theorem length_allMeshes_sim {ls L : List ALod} (h : LodsSim ls L) :
   have := congrArg List.length (sim_map_meshes (fun _ => ()) (fun _ _ => rfl) h)
   simpa using this
 
-theorem stripFH_fileHeader (m : AbstractModel) : stripFH (fileHeader m) =
+private theorem stripFH_fileHeader (m : AbstractModel) : stripFH (fileHeader m) =
     { version := m.version, stackSize := 0, runtimeSize := 0,
       vertexDeclarationCount := (allMeshes m).length.toUInt16,
       materialCount := m.fileMaterialCount,
